@@ -1184,7 +1184,7 @@ class HttpHeaderFieldValueContentSecurityPolicy(ParsableBase, Serializable):
             'directives',
             separator=';',
             item_class=ContentSecurityPolicyDirectiveVariant,
-            separator_spaces=' ',
+            separator_spaces=' \t',
             skip_empty=True,
         )
 
@@ -1451,12 +1451,12 @@ class HttpHeaderFieldValueSetCookie(FieldValueBase):  # pylint: disable=too-many
 
         parser.parse_string_until_separator('name', '=')
         parser.parse_separator('=')
-        parser.parse_string_until_separator_or_end('value', '; ')
+        parser.parse_string_until_separator_or_end('value', '; \t')
 
-        parser.parse_separator(' ', min_length=0)
+        parser.parse_separator(' \t', min_length=0)
         if parser.unparsed:
             parser.parse_separator(';')
-        parser.parse_separator(' ', min_length=0)
+        parser.parse_separator(' \t', min_length=0)
 
         parser.parse_parsable('params', HttpHeaderFieldValueSetCookieParams)
 
